@@ -146,9 +146,43 @@ def features(spec):
     return f
 
 
+def homogenise(spec):
+    """Every block takes the first block's operators, every output the first output's aggregation / defuzzifier."""
+    import copy
+
+    spec = copy.deepcopy(spec)
+    b0, o0 = spec["blocks"][0], spec["outputs"][0]
+    for b in spec["blocks"]:
+        for k in ("conjunction", "disjunction", "implication", "activation"):
+            b[k] = copy.deepcopy(b0[k])
+    for o in spec["outputs"]:
+        o["aggregation"], o["defuzzifier"] = o0["aggregation"], copy.deepcopy(o0["defuzzifier"])
+    return spec
+
+
 def check_pipeline(ctx, case) -> None:
     spec, rows = case["spec"], case["rows"]
-    eng = build.mk_engine(spec)
+    if case.get("route") == "configure" and len({("resolution" in (o["defuzzifier"] or {})) for o in spec["outputs"]}) == 1 \
+            and len({o.get("profile_kind", spec.get("profile")) for o in spec["outputs"]}) == 1 and spec.get("profile") != "hybrid":
+        # the operators are set through Engine.configure (names for the norms, objects for defuzzifier and activation)
+        # on an engine built without any
+        import copy
+
+        spec = homogenise(spec)
+        bare = copy.deepcopy(spec)
+        for b in bare["blocks"]:
+            b["conjunction"] = b["disjunction"] = b["implication"] = None
+            b["activation"] = {"cls": "General"}
+        for o in bare["outputs"]:
+            o["aggregation"] = o["defuzzifier"] = None
+        eng = build.mk_engine(bare)
+        b0, o0 = spec["blocks"][0], spec["outputs"][0]
+        eng.configure(conjunction=b0["conjunction"], disjunction=b0["disjunction"], implication=b0["implication"],
+                      aggregation=o0["aggregation"], defuzzifier=build.mk_defuzzifier(o0["defuzzifier"]),
+                      activation=build.mk_activation(b0["activation"]))
+        ctx.cls("route:Engine.configure")
+    else:
+        eng = build.mk_engine(spec)
     ref = refengine.Ref(spec, mu=implmu.impl_mu)
     leaky = refengine.Ref(spec, leaky_consequent=True, mu=implmu.impl_mu)
     prev = {}
@@ -157,7 +191,7 @@ def check_pipeline(ctx, case) -> None:
     for k, row in enumerate(rows):
         for v, x in zip(eng.input_variables, row):
             v.value = float(x)
-        sub = {"spec": spec, "rows": rows[: k + 1]}
+        sub = {"spec": case["spec"], "rows": rows[: k + 1], "route": case.get("route")}
         try:
             res = ref.process(row, prev)
         except refengine.RefError as e:
@@ -234,7 +268,7 @@ def cases(draw):
         k = draw(st.integers(0, n - 1))
         rows[k] = list(rows[k])
         rows[k][draw(st.integers(0, len(spec["inputs"]) - 1))] = math.nan
-    return {"spec": spec, "rows": rows}
+    return {"spec": spec, "rows": rows, "route": draw(st.sampled_from([None, None, None, None, "configure"]))}
 
 
 def shard(ctx, shard, nshards, ex):
